@@ -746,7 +746,7 @@ class SpectrumAnalyzer:
             "L": _np.array([segL], dtype=_np.int64),
             "K": _np.array([int(starts.shape[0])], dtype=_np.int64),
             "navg": _np.array([int(starts.shape[0])], dtype=_np.int64),
-            "D": _np.array([starts], dtype=object),
+            "D": [starts],
             "O": _np.array([self.config["final_olap"]], dtype=_np.float64),
             "i": _np.array([0], dtype=_np.int64),
             "XX": _np.array([float(MXX)], dtype=_np.float64),
@@ -1070,7 +1070,10 @@ class SpectrumResult:
         for key, value in list(self._data.items()):
             if isinstance(value, list):
                 if key == "D":
-                    self._data[key] = np.array(value, dtype=object)
+                    arr_d = np.empty(len(value), dtype=object)
+                    for i_d, d in enumerate(value):
+                        arr_d[i_d] = d
+                    self._data[key] = arr_d
                 else:
                     self._data[key] = np.asarray(value)
 
@@ -1102,11 +1105,10 @@ class SpectrumResult:
 
         # Normalize ragged D to list[np.ndarray[int64]]
         if "D" in self._data and self._data["D"].dtype == object:
-            D_list = []
-            for d in self._data["D"]:
-                arr = np.asarray(d, dtype=np.int64)
-                D_list.append(arr)
-            self._data["D"] = np.array(D_list, dtype=object)
+            D_obj = np.empty(len(self._data["D"]), dtype=object)
+            for i_d, d in enumerate(self._data["D"]):
+                D_obj[i_d] = np.asarray(d, dtype=np.int64)
+            self._data["D"] = D_obj
 
         # Convenience: number of frequency bins
         self.nf = int(self._data.get("f", np.array([])).shape[0])
